@@ -362,7 +362,7 @@ def jobs(tier):
                 J.append(Job("H3_plane:%s:1d:2box:4ops:%d" % (c, k), "h3_plane", {"config": c, "nbox": 2, "seqs": part, "oned": True}, 900))
             for k in range(4):
                 J.append(Job("H3_plane:%s:2d:1box:2ops:%d" % (c, k), "h3_plane", {"config": c, "nbox": 1, "seqs": [["a0", "f"]], "part": [k, 4, 9]}, 600))
-        for c in ("skew", "skew2"):          # two-dimensional family over the rectangular index bounds (about 20000 paths each: thorough tier only; the quick tier has the 1d family)
+        for c in ("skew", "skew2"):          # two-dimensional family over the rectangular index bounds (about 70000 paths each: thorough tier only; the quick tier has the 1d family)
             for k in range(8):
                 J.append(Job("H3_plane:%s:2d:1box:2ops:%d" % (c, k), "h3_plane", {"config": c, "nbox": 1, "seqs": [["a0", "f"]], "part": [k, 8, 10]}, 900))
         for k in range(16):
